@@ -234,6 +234,11 @@ func c03(r *Run) {
 			}
 		})
 		r.ob("C03.R3:unmanaged-flag-removed:"+siteKey(w, site), "the unmanaged flag is removed only from a node that has just been given (a slice of) a managed node's block - an ownership transfer, never caller memory", fn, site, transfer, "buf derives from another node's buf", true)
+		// ... and only when the donor owned the block: the donor may itself wrap caller memory
+		// (the data node of an earlier WriteDirect at the same offset) or have given its block away already
+		if transfer {
+			r.guarded("C03.R3:donor-was-managed:"+siteKey(w, site), "ownership of a block is taken over from another node only after seeing that this node owned it (reusable()==true): a donor that wraps caller memory, or that already gave its block away, must not make a second owner", fn, site, callResultAtom(w.MustFn("(*linkBufferNode).reusable"), true), nil, "guarded by donor.reusable()==true")
+		}
 		// and the donor gives up ownership in the same function
 		donorMarked := false
 		forEachIns(fn, func(j ssa.Instruction) {
